@@ -19,7 +19,7 @@ from ..core import (
     short,
     walk_no_nested,
 )
-from ..flow import Opaque, consistent, guards, inline, loops_around, paths, reaching
+from ..flow import Opaque, consistent, dealias, guards, inline, loops_around, paths, reaching
 from ..resolve import enum_members
 from ..templates import HOLE, Skeleton, skeleton, tex_like
 
@@ -73,6 +73,10 @@ def _mapping_names(fn: ast.AST) -> Set[str]:
     for node in ast.walk(fn):
         if isinstance(node, ast.Assign) and isinstance(node.value, ast.Attribute) and node.value.attr == "object_species":
             out |= {t.id for t in node.targets if isinstance(t, ast.Name)}
+    # ... or the attribute chain itself, used without a local (`rec.object_species[gene]`)
+    for node in ast.walk(fn):
+        if isinstance(node, ast.Attribute) and node.attr == "object_species" and isinstance(node.ctx, ast.Load) and dotted(node) is not None:
+            out.add(dotted(node))
     return out or {"mapping"}
 
 
@@ -1476,7 +1480,7 @@ def escape_taint(prog: Program) -> RuleResult:
         synteny_vars: Set[str] = set()
         for node0 in ast.walk(fn):
             if isinstance(node0, ast.For) and isinstance(node0.iter, ast.Call) and isinstance(node0.iter.func, ast.Attribute):
-                base0 = node0.iter.func.value
+                base0 = dealias(fn, node0.iter.func.value, node0)
                 if isinstance(base0, ast.Attribute) and base0.attr == "branches" and node0.iter.func.attr in ("items", "values"):
                     tgt0 = node0.target
                     last = tgt0.elts[-1] if isinstance(tgt0, ast.Tuple) else tgt0
@@ -1956,9 +1960,12 @@ def draw_anchor_sides(prog: Program) -> RuleResult:
         isinstance(n, ast.Subscript) and dotted(n.value) == p and dotted(n.slice) in gene_side for n in walk_no_nested(fn))]
     n = 0
     for node in walk_no_nested(fn):
-        if not (isinstance(node, ast.Subscript) and isinstance(node.value, ast.Attribute) and node.value.attr == "anchors" and isinstance(node.ctx, ast.Load)):
+        if not (isinstance(node, ast.Subscript) and isinstance(node.ctx, ast.Load)):
             continue
-        holder = node.value.value
+        table = dealias(fn, node.value, node)  # `<layout>.anchors`, directly or through a local bound to it
+        if not (isinstance(table, ast.Attribute) and table.attr == "anchors"):
+            continue
+        holder = table.value
         key = dotted(node.slice)
         hname = dotted(holder)
         n += 1
